@@ -227,6 +227,7 @@ func ruleFreeSetEntry(c *Ctx, id string) {
 		specs := []spec{
 			{[]string{"freelist.(*array).mergeSpans", "freelist.(*hashMap).mergeSpans"}, map[string]bool{"freelist.(*shared).release": true, "freelist.(*shared).releaseRange": true}, "mergeSpans (pending -> free) is called only from release / releaseRange"},
 			{[]string{"freelist.(*shared).release", "freelist.(*shared).releaseRange"}, map[string]bool{"freelist.(*shared).ReleasePendingPages": true}, "release / releaseRange are called only from ReleasePendingPages"},
+			{[]string{"freelist.(*shared).ReleasePendingPages"}, map[string]bool{"bbolt.(*DB).beginRWTx": true}, "ReleasePendingPages runs only at writer begin (before the new writer can have freed anything under its own txid)"},
 			{[]string{"freelist.(*array).Init", "freelist.(*hashMap).Init"}, map[string]bool{"freelist.(*shared).Read": true, "freelist.(*shared).NoSyncReload": true, "bbolt.(*DB).loadFreelist$1": true}, "Init (replace the free set) is called only from Read / NoSyncReload / loadFreelist"},
 			{[]string{"freelist.(*shared).Read"}, map[string]bool{"freelist.(*shared).Reload": true, "bbolt.(*DB).loadFreelist$1": true}, "Read is called only from Reload / loadFreelist"},
 			{[]string{"freelist.(*shared).Reload", "freelist.(*shared).NoSyncReload"}, map[string]bool{"bbolt.(*Tx).rollback": true, "freelist.(*shared).Reload": true}, "Reload / NoSyncReload are called only from the physical rollback"},
